@@ -20,7 +20,7 @@ from ..kinds import (
     owner_rule,
     the_loop,
 )
-from ..paths import Step, first_line, step_assigned, step_awaits, step_calls
+from ..paths import PathEnum, Step, first_line, step_assigned, step_awaits, step_calls
 from ..repo import AnalysisError, call_name, calls_in
 
 GRAPH = "cartgraph/graph.py"
@@ -800,13 +800,35 @@ def t_s1(ctx: Ctx, rule: str) -> None:
         and ast.unparse(ba[0].test) == "self.is_flat()" == ast.unparse(bb[0].test)
         and ast.unparse(ba[0].body[0]) == "return False" and ast.unparse(bb[0].body[0]) == "return True"
     )
-    same = ok_first and [ast.dump(x) for x in ba[1:]] == [ast.dump(x) for x in bb[1:]]
-    detail = {}
-    if ok_first and not same:
-        for x, y in zip(ba[1:], bb[1:]):
-            if ast.dump(x) != ast.dump(y):
-                detail = {"is_started": first_line(x), "is_finished(renamed)": first_line(y)}
-                break
+    # the rest must be the same decision function: compared as path tables (premise formula -> returned expression), so that
+    # `else:` after a return, reordered exclusive branches and the like do not matter
+    def table(body):
+        rows = []
+        for pth in PathEnum(None).block(body):
+            v = PathView(pth)
+            if not v.feasible():
+                continue
+            prem = norm.conj([v.cond_formula(i) for i, st in enumerate(v.steps) if st.kind == "cond"])
+            out = ("raise", PathEnum._raised_name(pth.exit_node)) if pth.exit == "raise" else (pth.exit, v.canon_text(pth.exit_node.value, len(v.steps)) if pth.exit == "return" and pth.exit_node.value is not None else None)
+            rows.append((prem, out))
+        return rows
+
+    same, detail = False, {}
+    if ok_first:
+        ta, tb = table(ba[1:]), table(bb[1:])
+
+        def covered(rows, others):
+            for prem, out in rows:
+                # the disjunction of the other table's premises with the same outcome must cover this premise
+                alts = [p2 for p2, o2 in others if o2 == out]
+                if not alts or not norm.implies(prem, norm.disj(alts)):
+                    return (norm.show(prem), out)
+            return None
+
+        miss = covered(ta, tb) or covered(tb, ta)
+        same = miss is None and bool(ta)
+        if miss is not None:
+            detail = {"unmatched_row": miss}
     ctx.record(rule, "SIBLING", ff.ref, "is_finished == is_started under renaming started<->finished (flat rows: False / True)",
                same, detail, "" if same else "is_started and is_finished no longer discriminate scopes identically")
 
